@@ -1,10 +1,10 @@
 //! C04/C05 — constrained_spline, C06 — linear(): drivers record knots and returned segments;
 //! exact rational oracles: oracles/c04.py, c05.py, c06.py.
 
-use crate::events::*;
-use crate::flat::*;
-use crate::gen::*;
-use crate::mon::*;
+use ppv::events::*;
+use ppv::flat::*;
+use ppv::gen::*;
+use ppv::mon::*;
 use piecewise_polynomial::*;
 use serde_json::json;
 
